@@ -216,11 +216,10 @@ Definition lnode_okb (v : val) (p : node) : bool :=
 Definition lnodes_okb (nodes : list node) (v : val) : bool := forallb (lnode_okb v) nodes.
 (* order certificate: every fan-in is defined earlier in the list, no name twice, no operand twice
    (then mk_g nodes is closed and acyclic: wf_order_closed, wf_order_acyclic) *)
-Definition wf_order (nodes : list node) : bool :=
-  (foldl (λ st p, let '(seen, ok) := st in
-                   (({[p.1.1.1]} : gset string) ∪ seen,
-                    ok && negb (bool_decide (p.1.1.1 ∈ seen)) && forallb (λ f, bool_decide (f ∈ seen)) p.2 && bool_decide (NoDup p.2)))
-         ((∅ : gset string), true) nodes).2.
+Definition wf_step (st : gset string * bool) (p : node) : gset string * bool :=
+  (({[p.1.1.1]} : gset string) ∪ st.1,
+   st.2 && negb (bool_decide (p.1.1.1 ∈ st.1)) && forallb (λ f, bool_decide (f ∈ st.1)) p.2 && bool_decide (NoDup p.2)).
+Definition wf_order (nodes : list node) : bool := (foldl wf_step ((∅ : gset string), true) nodes).2.
 (* topological order of a (small) graph computed inside Coq *)
 Definition rank_le (r : gmap string nat) (p q : string * ninfo) : Prop := rank_of r p.1 ≤ rank_of r q.1.
 Global Instance rank_le_dec r p q : Decision (rank_le r p q). Proof. unfold rank_le. apply _. Defined.
